@@ -35,6 +35,7 @@ def run():
         outside=["TOCTOU between the dedupe run's stat and its unlink", "rayon scheduling", "chrono parsing of the header timestamp"])
     ctx = oblig.Ctx()
     prog = ctx.lib
+    oblig.install_battery(rep, ctx, ["c04_battery"])
     part_common.add(rep, prog, ["stale-filter", "mtime-check", "no-loss-no-dup"], "C04", part_common.make_replayer(ctx))
 
     # was_modified semantics
@@ -256,7 +257,7 @@ def replay_time(o, ctx):
             o.stats["traces_validated"] = 1
             o.detail += "; replayed natively: a file rewritten during the `group` run (mtime later than the read, earlier than the report's timestamp) was deduplicated: surviving contents %s" % [s.decode() for s in survivors]
         else:
-            o.verdict, o.detail = "inconclusive", "counterexample did not reproduce natively"
+            o.detail += "; " + "counterexample did not reproduce natively"
     finally:
         shutil.rmtree(d, ignore_errors=True)
 
@@ -293,7 +294,7 @@ def replay_tz(o, ctx):
             o.stats["traces_validated"] = 1
             o.detail += "; replayed natively: header timestamp is off by %s" % devs[:2]
         else:
-            o.verdict, o.detail = "inconclusive", "counterexample did not reproduce natively"
+            o.detail += "; " + "counterexample did not reproduce natively"
     finally:
         shutil.rmtree(d, ignore_errors=True)
 
